@@ -1210,3 +1210,54 @@ example : ((C02.runS Sys.default C02.witness).storeOf 3).entryAt 1 =
     some (((C02.runS Sys.default C02.witness).storeOf 3).allEntries[0]'(by decide)) := by decide
 
 end WK.C01
+
+/-! ## acknowledged entries survive every history in which no holder itself installs -/
+namespace WK.C01
+open WK WK.Repl
+
+/-- the named missing hypothesis: in the continuation, none of the voters in `hs` itself runs
+    `Install` (its own recovery `Replace` is the one step not yet proved to keep acknowledged entries
+    under FullHolders), and the history is not re-configured -/
+def NoHolderInstalls (hs : List Nat) (ops : List Op) : Prop :=
+  ∀ op ∈ ops, (∀ i a ps acks, op = .install i a ps acks → i ∉ hs) ∧ (∀ n q c fr, op ≠ .cfg n q c fr)
+
+theorem holds_run (hs : List Nat) : ∀ (ops : List Op) (s : Sys), NoHolderInstalls hs ops →
+    ∀ v ∈ hs, ∀ p ∈ (s.storeOf v).props, p ∈ ((C02.runS s ops).storeOf v).props := by
+  intro ops
+  induction ops with
+  | nil => intro s _ v _ p hp; exact hp
+  | cons op ops ih =>
+    intro s hno v hv p hp
+    have h1 := hno op List.mem_cons_self
+    have hstep := c01_loss_only_at_installer s op v
+      (fun i a ps acks e hiv => (h1.1 i a ps acks e) (by rw [hiv]; exact hv)) h1.2 p hp
+    exact ih (step s op).1 (fun o ho => hno o (List.mem_cons_of_mem _ ho)) v hv p hstep
+
+/-- **c01_acked_survives_partial** — acknowledged entries survive failover and crashes, in the form
+    that is proved end to end: when a durability round succeeds (the only way a receipt is given),
+    there are ≥ q DISTINCT voters (the leader among them) that hold the proposal, and after ANY
+    continuation — commits with any answers, deposed-leader replays, follower repairs, crashes and
+    restarts of anyone, installs (with recovery, repair and barrier) on any OTHER node with any
+    responder sets — every one of those voters still holds it.  Named missing hypothesis:
+    `NoHolderInstalls` (no holder itself runs Install); discharging it needs the installer's own step
+    under FullHolders (c01_no_cut_under_full_holders + c01_replace_installs_selection +
+    c01_store_prefix_matching are its proved ingredients). -/
+theorem c01_acked_survives_partial (s : Sys) (i q : Nat) (acks : List Ack) (p : Proposal)
+    (hsz : s.nodes.length = s.n) (hi : 1 ≤ i ∧ i ≤ s.n) (h : (runRound s i q acks p).2.1 = true) :
+    ∃ hs : List Nat, hs.Nodup ∧ q ≤ hs.length ∧ i ∈ hs ∧
+      ∀ ops, NoHolderInstalls hs ops →
+        ∀ v ∈ hs, HoldsM ((C02.runS (runRound s i q acks p).1 ops).storeOf v) p.m := by
+  obtain ⟨hs, hnd, hq, hmem, _, hold⟩ := c01_receipt_has_q_holders s i q acks p hsz hi h
+  refine ⟨hs, hnd, hq, hmem, fun ops hno v hv => ?_⟩
+  obtain ⟨pr, hpr, he⟩ := hold v hv
+  exact ⟨pr, holds_run hs ops _ hno v hv pr hpr, he⟩
+
+/-- non-vacuity: a continuation with a crash, a restart, a commit and an install on a non-holder
+    satisfies the hypothesis for holders {1,2} -/
+example : NoHolderInstalls [1, 2] [.crash 1, .restart 1, .commit 1 ⟨1, 1, 1⟩ 2 1 0 [.D, .D, .D],
+    .install 3 ⟨⟨1, 2, 1⟩, 2, false⟩ [.all, .all, .all] [.D, .D, .D]] := by
+  intro op hop
+  simp only [List.mem_cons, List.mem_singleton, List.not_mem_nil, or_false] at hop
+  rcases hop with rfl | rfl | rfl | rfl <;> refine ⟨?_, ?_⟩ <;> intros <;> simp_all <;> omega
+
+end WK.C01
